@@ -233,7 +233,7 @@ impl Workload for SchedWorkload {
             "the simulated core count stands for the machine; num_cpus::get() (used only for a warning) is the real one".into(),
         ]
     }
-    fn generate(&self, seed: u64, tier: Tier) -> SchedCase {
+    fn generate(&self, seed: u64, _index: u64, tier: Tier) -> SchedCase {
         let mut rng = Rng::new(seed);
         let kinds: Vec<&'static str> = match &self.only {
             Some(v) => v.clone(),
